@@ -257,7 +257,11 @@ func (osObj *VirtualOS) SetArgs(args []string) {
 }
 
 func (osObj *VirtualOS) Chdir(dir string) error {
-	osObj.cwd = dir
+	// A relative directory is relative to the current one
+	if !filepath.IsAbs(dir) {
+		dir = filepath.Join(osObj.cwd, dir)
+	}
+	osObj.cwd = filepath.Clean(dir)
 	return nil
 }
 
@@ -333,16 +337,24 @@ func (osObj *VirtualOS) MkdirTemp(dir, pattern string) (string, error) {
 	if osObj.tmp == "" {
 		return "", errors.New("no temporary directory")
 	}
-	mount, _, found := osObj.findMount(osObj.tmp)
+	// Like os.MkdirTemp, refuse a pattern that names more than one path
+	// element: it could point outside the temporary directory
+	if strings.ContainsRune(pattern, '/') || strings.ContainsRune(pattern, filepath.Separator) {
+		return "", errors.New("pattern contains path separator")
+	}
+	rint := rand.Int63()
+	name := filepath.Join(osObj.tmp, fmt.Sprintf("%d-%s", rint, pattern))
+	// Resolve the new directory itself, so that it is created below the
+	// temporary directory (not at the root of its mount), in the mount that
+	// serves that path
+	mount, resolvedPath, found := osObj.findMount(name)
 	if !found {
 		return "", fmt.Errorf("temporary directory not found: %s", osObj.tmp)
 	}
-	rint := rand.Int63()
-	dirName := fmt.Sprintf("%d-%s", rint, pattern)
-	if err := mount.Source.Mkdir(dirName, 0o755); err != nil {
+	if err := mount.Source.Mkdir(resolvedPath, 0o755); err != nil {
 		return "", err
 	}
-	return filepath.Join(osObj.tmp, dirName), nil
+	return name, nil
 }
 
 func (osObj *VirtualOS) Open(name string) (File, error) {
